@@ -324,6 +324,7 @@ func (cl *CachedLocation) get(ctx *Context, sys *System, name string, checkExist
 
 	// Remove from cache if location does not exist so the cache does not explode
 	if nil == cl.Location {
+		VerifYield("CachedLocation.get.cleanup")
 		sys.CachedLocations.Lock()
 		delete(sys.CachedLocations.locs, name)
 		sys.CachedLocations.Unlock()
